@@ -23,8 +23,8 @@ func ifaceMethod(p *model.Prog, pkg, typ, m string) *types.Func {
 	return f
 }
 
-// okEdgeDominates: instruction `in` is dominated by `call` and is not reachable from the
-// error!=nil edge of call's error result (i.e. it only runs when call succeeded).
+// okEdgeDominates: instruction `in` is dominated by `call`, and every path from call to in
+// crosses an edge on which call's error result is nil (it only runs when call succeeded).
 func okEdgeDominates(fn *ssa.Function, call ssa.CallInstruction, in ssa.Instruction) bool {
 	if !model.InstrDominates(call, in) {
 		return false
@@ -33,16 +33,28 @@ func okEdgeDominates(fn *ssa.Function, call ssa.CallInstruction, in ssa.Instruct
 	if !ok {
 		return false
 	}
-	edges := errNonNilEdges(v)
-	if len(edges) == 0 {
+	errVals := errValuesOf(v)
+	if len(errVals) == 0 {
 		return false
 	}
-	for _, e := range edges {
-		if (model.PathQuery{FromBlock: e, Target: func(x ssa.Instruction) bool { return x == in }}).Find(fn) != nil {
+	nilEdge := func(b *ssa.BasicBlock, k int) bool {
+		iff, ok := b.Instrs[len(b.Instrs)-1].(*ssa.If)
+		if !ok {
 			return false
 		}
+		c, pol := model.StripNot(iff.Cond, k == 0)
+		x, trueIsNonNil, ok := nilTest(c)
+		if !ok {
+			return false
+		}
+		for _, ev := range errVals {
+			if x == ev {
+				return pol != trueIsNonNil
+			}
+		}
+		return false
 	}
-	return true
+	return model.PathQuery{From: call, StopEdge: nilEdge, Target: func(x ssa.Instruction) bool { return x == in }}.Find(fn) == nil
 }
 
 func c10(p *model.Prog, r *report.Result) {
